@@ -40,7 +40,7 @@ def cases(draw, name, max_len):
     if name == "chain_from_iterable":
         case["params"]["outer"]["fl"] = "aclass"
     for spec in case["fns"].values():
-        spec["fl"] = draw(st.sampled_from(["def", "async", "falsyobj", "gencoro"]))
+        spec["fl"] = draw(st.sampled_from(["def", "async", "falsyobj", "gencoro", "classaw"]))
     case["close"] = False
     return case
 
